@@ -129,6 +129,91 @@ def instrument(repo_root):
     return _n_code
 
 
+# ------------------------------------------------------------------------------ locks
+_real_lock = threading.Lock
+_real_rlock = threading.RLock
+
+
+class SimLock:
+    """Cooperative stand-in for threading.Lock / RLock objects created by the code under
+    test (env.load installs the factory before fastavro is imported).  A simulated task that
+    finds the lock taken parks in the scheduler instead of blocking for real -- the owner may
+    be a task the scheduler has pre-empted inside the critical section, and a real block would
+    hang the whole simulation.  Outside a simulated run it behaves like the real lock."""
+
+    def __init__(self, reentrant=False):
+        self._l = _real_rlock() if reentrant else _real_lock()
+        self._re = reentrant
+        self._owner = None
+        self._depth = 0
+
+    def acquire(self, blocking=True, timeout=-1):
+        t = getattr(_tls, "task", None)
+        if t is None or not blocking:
+            ok = self._l.acquire(blocking, timeout) if blocking else self._l.acquire(False)
+            if ok:
+                self._owner = t
+                self._depth += 1
+            return ok
+        while True:
+            if self._re and self._owner is t and self._depth > 0:
+                self._l.acquire()
+                self._depth += 1
+                return True
+            if self._l.acquire(False):
+                self._owner = t
+                self._depth += 1
+                return True
+            t.sched.probe("lock_contended")
+            t.sched.block_until(lambda: self._depth == 0, "lock-wait")
+
+    def release(self):
+        self._depth -= 1
+        if self._depth == 0:
+            self._owner = None
+        self._l.release()
+        t = getattr(_tls, "task", None)
+        if t is not None:
+            t.sched.yield_point("lock-release")
+
+    def locked(self):
+        return self._depth > 0
+
+    def __enter__(self):
+        self.acquire()
+        return self
+
+    def __exit__(self, *a):
+        self.release()
+
+
+def _from_fastavro():
+    try:
+        return str(sys._getframe(2).f_globals.get("__name__", "")).startswith("fastavro")
+    except ValueError:
+        return False
+
+
+def _lock_factory():
+    return SimLock(False) if _from_fastavro() else _real_lock()
+
+
+def _rlock_factory():
+    return SimLock(True) if _from_fastavro() else _real_rlock()
+
+
+def install_lock_seam():
+    """threading.Lock / threading.RLock hand out cooperative locks to callers inside the
+    fastavro package (at import time or later) and real locks to everybody else."""
+    threading.Lock = _lock_factory
+    threading.RLock = _rlock_factory
+
+
+def uninstall_lock_seam():
+    threading.Lock = _real_lock
+    threading.RLock = _real_rlock
+
+
 # ------------------------------------------------------------------------------ tasks
 class Task:
     __slots__ = ("name", "idx", "fn", "sched", "sem", "done", "result", "blocked",
